@@ -109,7 +109,8 @@ PROPS["C06"] = {
                     "necessary conditions only: the check never demands a record"],
     "units": [{
         "pkg": "command",
-        "tests": [T("TestC06Frames", {"checks": 15000, "shards": 8}, {"checks": 150000, "shards": 16})],
+        "tests": [T("TestC06Frames", {"checks": 15000, "shards": 8}, {"checks": 150000, "shards": 16}),
+                  T("TestC06Burst", {"checks": 3, "shards": 4}, {"checks": 20, "shards": 8})],
     }, {
         "pkg": "command", "fuzz": True, "thorough_only": True,
         "tests": [F("FuzzC06TCP", "90s"), F("FuzzC06ICMP", "90s"), F("FuzzC06ARP", "60s")],
@@ -189,6 +190,9 @@ PROPS["C03"] = {
                   T("TestC03Netns", {"checks": 10, "shards": 8}, {"checks": 250, "shards": 12}),
                   T("TestC03Burst", {"checks": 3, "shards": 4}, {"checks": 20, "shards": 8}),
                   T("TestC03NetnsQuiet", {"checks": 1, "shards": 3}, {"checks": 6, "shards": 6})],
+    }, {
+        "pkg": "command", "race": True,
+        "tests": [T("TestC03Chunks", {"checks": 3, "shards": 4}, {"checks": 30, "shards": 8})],
     }],
 }
 
